@@ -36,7 +36,7 @@ tvars == <<vars, l, pend, wev>>
 
 Ev == Trace[l]
 Relaxed == cfg.relaxed
-NoHead == [num |-> -1, incl |-> {}, rev |-> {}, energy |-> << >>, gala |-> FALSE, synced |-> FALSE]
+NoHead == [num |-> -1, incl |-> {}, rev |-> {}, energy |-> << >>, basefee |-> <<0, 0, 0>>, gala |-> FALSE, synced |-> FALSE]
 
 Fresh(c) ==
   /\ cfg = c /\ txs = << >> /\ objs = << >> /\ byHash = << >> /\ byID = << >> /\ quota = << >> /\ cost = << >>
@@ -56,7 +56,7 @@ TxEv ==
   /\ txs' = Put(txs, Ev.h, Ev.tx)
   /\ UNCHANGED <<cfg, objs, byHash, byID, quota, cost, pub, head, blocked, tick, w, lastDrop, pend, wev>>
 
-HeadOf(r) == [num |-> r.num, incl |-> SeqSet(r.incl), rev |-> SeqSet(r.rev), energy |-> r.energy, gala |-> r.gala,
+HeadOf(r) == [num |-> r.num, incl |-> SeqSet(r.incl), rev |-> SeqSet(r.rev), energy |-> r.energy, basefee |-> r.basefee, gala |-> r.gala,
               synced |-> r.synced]
 HeadEv ==
   /\ Ev.e = "Head"
